@@ -62,11 +62,11 @@ class Scripted(object):
 
     def __init__(self, recorder, entries, name):
         self.recorder, self.entries, self.name = recorder, list(entries), name
-        self.calls, self.raised, self.returned = [], [], []
+        self.calls, self.raised, self.returned, self.in_interception = [], [], [], []
 
     def __call__(self, *args, **kwargs):
         e = self.entries[len(self.calls)] if len(self.calls) < len(self.entries) else {'outcome': 'ret'}
-        self.calls.append((args, kwargs))
+        self.calls.append((args, kwargs)); self.in_interception.append(bool(getattr(self.recorder, '_currently_in_interception', False)))
         if e.get('disc'):
             self.recorder.discard_recording()
         if e.get('forced'):
@@ -232,7 +232,7 @@ def run(scn):
             if 'exit' not in inner:
                 inner['exit'] = 'raise'; inner['exception'] = ex
     obs['exit'] = inner.get('exit')
-    obs['body_calls'] = len(body.calls)
+    obs['body_calls'] = len(body.calls); obs['body_in_interception'] = list(body.in_interception)
     obs['same_args'] = bool(body.calls) and len(body.calls[0][0]) == 2 and body.calls[0][0][1] is probe and body.calls[0][1] == {}
     obs['result_is_body_result'] = inner.get('exit') == 'ret' and bool(body.returned) and inner['result'] is body.returned[0]
     obs['result_repr'] = repr(inner.get('result'))
